@@ -717,7 +717,13 @@ func (c *towerChk) checkType(tt *towerType) {
 			q := T.Size(tt.level)
 			exps := []*big.Int{big.NewInt(0), big.NewInt(1), big.NewInt(2), big.NewInt(3), big.NewInt(-1), big.NewInt(-2), big.NewInt(255), big.NewInt(256),
 				new(big.Int).Set(T.P), new(big.Int).Sub(q, big.NewInt(1)), new(big.Int).Sub(q, big.NewInt(2)),
-				new(big.Int).Neg(c.rnd("exp", 0)), new(big.Int).Lsh(big.NewInt(1), 64), new(big.Int).Mul(c.rnd("exp", 1), c.rnd("exp", 2))}
+				new(big.Int).Neg(c.rnd("exp", 0)), new(big.Int).Mul(c.rnd("exp", 1), c.rnd("exp", 2))}
+			// machine-word boundaries of the exponent (and of its endomorphism-split halves)
+			for _, wb := range []uint{63, 64, 127, 128, 191, 192} {
+				p2 := new(big.Int).Lsh(big.NewInt(1), wb)
+				exps = append(exps, p2, new(big.Int).Sub(p2, big.NewInt(1)))
+			}
+			exps = append(exps, new(big.Int).Neg(new(big.Int).Lsh(big.NewInt(1), 63)))
 			if c.s.R != nil {
 				exps = append(exps, new(big.Int).Set(c.s.R), new(big.Int).Sub(c.s.R, big.NewInt(1)), new(big.Int).Add(c.s.R, big.NewInt(1)), new(big.Int).Neg(c.s.R))
 			}
